@@ -15,7 +15,7 @@ from oracle.columns_ref import World, split_label
 
 # syntax in the formula -> name used in labels (after the library's Python normalisation)
 NUMERIC = {"a": "a", "b": "b", "I(a*2)": "I(a * 2)", "{a+b}": "a + b"}
-CATEGORICAL = {"A": "A", "B": "B", "C(A)": "C(A)"}
+CATEGORICAL = {"A": "A", "B": "B", "C(A)": "C(A)", "C(A, contr.sum)": "C(A, contr.sum)", "C(B, contr.helmert)": "C(B, contr.helmert)"}
 LABEL_NAME = {**NUMERIC, **CATEGORICAL}
 
 A_LEVELS, B_LEVELS = ["x", "y", "z"], ["u", "v"]
@@ -70,12 +70,27 @@ def full_frame(a, b, index=None, a_rows=None, b_rows=None, layout=None) -> panda
 def world(a: list, b: list, one: Any = 1.0, zero: Any = 0.0, a_rows=None, b_rows=None, two: Any = 2.0, a_levels=None, b_levels=None) -> World:
     a_rows, b_rows = a_rows or A_ROWS, b_rows or B_ROWS
     A_LEVELS_, B_LEVELS_ = a_levels or A_LEVELS, b_levels or B_LEVELS
+    from fractions import Fraction
+
+    from oracle import contrasts_ref as cref
+
+    def table(levels, coding, prefix, named):
+        # column j of a reduced coding -> {level: value}; sum-to-zero codings name their columns after the first n-1 levels
+        return {f"{prefix}{named[j]}": {str(l): (int(coding[i][j]) if Fraction(coding[i][j]).denominator == 1 else float(coding[i][j])) for i, l in enumerate(levels)}
+                for j in range(len(levels) - 1)}
+
+    coded = {}
+    if len(A_LEVELS_) >= 2:
+        coded["C(A, contr.sum)"] = table(A_LEVELS_, cref.sum_(len(A_LEVELS_)), "S.", A_LEVELS_[:-1])
+    if len(B_LEVELS_) >= 2:
+        coded["C(B, contr.helmert)"] = table(B_LEVELS_, cref.helmert(len(B_LEVELS_)), "H.", B_LEVELS_[1:])
     return World(
         len(a),
         numeric={"a": list(a), "b": list(b), "I(a * 2)": [two * v for v in a], "a + b": [x + y for x, y in zip(a, b)]},
-        categorical={"A": (A_LEVELS_, a_rows), "C(A)": (A_LEVELS_, a_rows), "B": (B_LEVELS_, b_rows)},
+        categorical={"A": (A_LEVELS_, a_rows), "C(A)": (A_LEVELS_, a_rows), "B": (B_LEVELS_, b_rows), "C(A, contr.sum)": (A_LEVELS_, a_rows), "C(B, contr.helmert)": (B_LEVELS_, b_rows)},
         one=one,
         zero=zero,
+        coded=coded,
     )
 
 
@@ -113,11 +128,12 @@ def render_formula(terms: list[T], intercept: bool) -> str:
 
 
 def candidate_terms(max_factors=3, with_python=True, with_lits=True) -> list[T]:
-    base = ["a", "b", "A", "B"] + (["C(A)", "I(a*2)", "{a+b}"] if with_python else [])
+    base = ["a", "b", "A", "B"] + (["C(A)", "I(a*2)", "{a+b}", "C(A, contr.sum)", "C(B, contr.helmert)"] if with_python else [])
+    var_of = lambda f: "A" if f in ("A", "C(A)", "C(A, contr.sum)") else "B" if f in ("B", "C(B, contr.helmert)") else f
     out = []
     for k in range(1, max_factors + 1):
         for combo in itertools.permutations(base, k):
-            if "A" in combo and "C(A)" in combo:
+            if len({var_of(f) for f in combo}) < len(combo):
                 continue  # same variable encoded twice (excluded by C03's precondition; keep C02 simple too)
             if combo != tuple(sorted(combo)) and k == 3:
                 # for 3-factor terms keep the sorted order and one rotated order only
